@@ -40,13 +40,45 @@ def plan(g, s):
     rnd = random.Random(s * 97 + 1)
     ovsets = L.make_ovsets(g, rnd, NLIST)
     lists = []
+    consts = [i for i, c in g.cells.items() if c['k'] == 'c']
     for o in ovsets:
-        ids = list(o['ov'])
-        tuples = [dict(o['ov'])]
+        ov = dict(o['ov'])
+        extra = None
+        if o['style'] != 'cells':
+            # a whole-range input preceded by a plain cell input
+            pool = [i for i in consts if i not in ov]
+            if pool:
+                extra = rnd.choice(pool)
+                ov[extra] = G.rnd_const(rnd, 'n')
+        ids = list(ov)
+        tuples = [ov]
         for _ in range(NARGS - 1):
             tuples.append({i: arg_value(rnd) for i in ids})
-        lists.append({'ids': ids, 'style': o['style'], 'tuples': tuples})
+        lists.append({'ids': ids, 'style': o['style'], 'tuples': tuples, 'extra': extra})
     return lists
+
+
+def concretise_mixed(g, lst, tup, use_names):
+    """Ordered (key, value) pairs: plain cells first, then names / the range."""
+    targets = {}
+    for n, e in g.names.items():
+        if e[0] == 'ref':
+            targets.setdefault(e[1], "'[%s]'!%s" % (G.name_text(g, e)[0], n))
+    st = lst['style']
+    plain, later = [], []
+    if st != 'cells':
+        e = st[1]
+        if lst.get('extra'):
+            plain.append((G.node_name(lst['extra']), V.pyval(tup[lst['extra']])))
+        rows = [[V.pyval(tup[x]) for x in row] for row in g.rect_ids(e)]
+        later.append((G.rect_node_name(*e[1:]), rows))
+    else:
+        for i in lst['ids']:
+            if use_names and i in targets:
+                later.append((targets[i], V.pyval(tup[i])))
+            else:
+                plain.append((G.node_name(i), V.pyval(tup[i])))
+    return plain + later
 
 
 def _work(item):
@@ -68,9 +100,10 @@ def _work(item):
             tmp = tempfile.mkdtemp(prefix='verif-c08-')
             m = R.build_files(g, tmp)
         for li, lst in enumerate(lists):
-            ovset = {'ov': lst['tuples'][0], 'style': lst['style']}
-            keys_vals = L.concretise(g, ovset)
-            keys = list(keys_vals)
+            ovset = {'ov': {i: v for i, v in lst['tuples'][0].items() if i != lst.get('extra')},
+                     'style': lst['style']}
+            use_names = (k + li) % 2 == 0
+            keys = [kv[0] for kv in concretise_mixed(g, lst, lst['tuples'][0], use_names)]
             unpop = any(i not in g.cells for i in lst['ids'])
             overlap = bool(set(lst['ids']) & set(outs))
             hazard = L.range_override_hazard(g, ovset)
@@ -84,7 +117,7 @@ def _work(item):
                                         'unpop': unpop, 'hazard': hazard, 'overlap': overlap})
                 continue
             for ti, tup in enumerate(lst['tuples']):
-                args = L.concretise(g, {'ov': tup, 'style': lst['style']})
+                args = dict(concretise_mixed(g, lst, tup, use_names))
                 exp = sem[li][ti]
                 try:
                     res = func(*[args[k_] for k_ in keys])
